@@ -17,6 +17,7 @@ import (
 	"strconv"
 	"strings"
 	"sync"
+	"sync/atomic"
 	"time"
 
 	"github.com/whoisnian/glb/logger"
@@ -193,6 +194,37 @@ func (h *hammerDest) Write(p []byte) (int, error) {
 	return len(p), nil
 }
 
+// emit logs one record through one of the front-end entry points (all of them are "logging a record")
+func emit(l *logger.Logger, variant int, level slog.Level, msg string, args []any) {
+	ctx := context.Background()
+	switch variant % 3 {
+	case 0:
+		l.Log(ctx, level, msg, args...)
+	case 1:
+		switch level {
+		case logger.LevelDebug:
+			l.Debug(msg, args...)
+		case logger.LevelInfo:
+			l.Info(msg, args...)
+		case logger.LevelWarn:
+			l.Warn(msg, args...)
+		default:
+			l.Error(msg, args...)
+		}
+	default:
+		switch level {
+		case logger.LevelDebug:
+			l.Debugf("%s", msg)
+		case logger.LevelInfo:
+			l.Infof("%s", msg)
+		case logger.LevelWarn:
+			l.Warnf("%s", msg)
+		default:
+			l.Errorf("%s", msg)
+		}
+	}
+}
+
 func hammer(kind string, perG int, rng *rand.Rand) map[string]any {
 	const G = 8
 	hd := &hammerDest{kind: kind, legal: map[string]bool{}}
@@ -235,11 +267,48 @@ func hammer(kind string, perG int, rng *rand.Rand) map[string]any {
 	}
 	close(start)
 	wg.Wait()
+	// first use of a freshly derived logger by several goroutines at once: whatever a handler postpones from
+	// derivation to first use happens here under contention
+	fresh := 0
+	for t := 0; t < perG/40; t++ {
+		chain := append(append([]chainItem(nil), chains[rng.Intn(len(chains))]...), chainItem{attrs: []any{fmt.Sprintf("fresh%d", t), t, "svc", "api"}})
+		if t%3 == 0 {
+			chain = append(chain, chainItem{group: fmt.Sprintf("fg%d", t%5)})
+		}
+		lg := apply(root, chain)
+		msgs := make([]string, G)
+		for g := 0; g < G; g++ {
+			msgs[g] = fmt.Sprintf("fresh-%d-%d", t, g)
+			c := &captureOne{}
+			apply(logger.New(mkHandler(kind, c, logger.LevelInfo)), chain).Info(msgs[g], "k", g)
+			hd.mu.Lock()
+			hd.legal[mask(kind, c.line)] = true
+			hd.mu.Unlock()
+		}
+		var ready, go_ atomic.Int32
+		var fw sync.WaitGroup
+		for g := 0; g < G; g++ {
+			fw.Add(1)
+			go func(g int) {
+				defer fw.Done()
+				ready.Add(1)
+				for go_.Load() == 0 {
+				}
+				lg.Info(msgs[g], "k", g)
+			}(g)
+		}
+		for ready.Load() < G {
+			runtime.Gosched()
+		}
+		go_.Store(1)
+		fw.Wait()
+		fresh += G
+	}
 	evs := []any{}
 	for _, b := range hd.bad {
 		evs = append(evs, map[string]any{"e": "hbad", "g": 0, "r": 0, "en": false, "same": false, "nl": 0, "last": false, "n": 0, "x": b})
 	}
-	evs = append(evs, map[string]any{"e": "hsum", "g": 0, "r": hd.writes, "en": false, "same": false, "nl": 0, "last": false, "n": G * perG, "x": ""})
+	evs = append(evs, map[string]any{"e": "hsum", "g": 0, "r": hd.writes, "en": false, "same": false, "nl": 0, "last": false, "n": G*perG + fresh, "x": ""})
 	return map[string]any{"kind": kind, "evs": evs, "threshold": 4, "hammer": true}
 }
 
@@ -258,7 +327,7 @@ func main() {
 	}
 	for run := 0; run < *runs; run++ {
 		for _, kind := range []string{"nano", "text", "json"} {
-			threshold := levels[rng.Intn(4)]
+			threshold := []slog.Level{-4, logger.LevelDebug, logger.LevelInfo, logger.LevelWarn, logger.LevelError, -8}[(run+rng.Intn(2)*3)%6]
 			d := &dest{log: evlog.New(), kind: kind, dwellNs: int64(20+rng.Intn(200)) * 1000, rng: rand.New(rand.NewSource(rng.Int63()))}
 			if run%2 == 1 {
 				d.failEvery = 3 // some Write calls report an error
@@ -368,13 +437,14 @@ func main() {
 							useLogger, useChain = sh.l, sh.chain
 						}
 						enabled := level >= threshold
+						variant := r.Intn(3)
 						if enabled { // what this very call writes when logged alone on a fresh identical chain
 							c := &captureOne{}
-							apply(logger.New(mkHandler(kind, c, threshold)), useChain).Log(context.Background(), level, msg, args...)
+							emit(apply(logger.New(mkHandler(kind, c, threshold)), useChain), variant, level, msg, args)
 							d.expect.Store(id, mask(kind, c.line))
 						}
 						b.Emit(ev{E: "lb", G: gid, R: id, En: enabled})
-						useLogger.Log(context.Background(), level, msg, args...)
+						emit(useLogger, variant, level, msg, args)
 						b.Emit(ev{E: "le", G: gid, R: id})
 					}
 				}(g)
